@@ -105,6 +105,11 @@ func checkC02(c *Ctx) {
 		// the public Verify succeeds only through internal.Verify
 		c.guard(p, "C02.guard", "public Verify accepts only via internal.Verify", p.Func(pk, "", "Verify"), GuardSpec{Assumes: []Assume{calleeAssume(latFalse, -1, ip+".Verify")}})
 	}
+	// a hybrid signature is valid exactly when both components are: no further reason to refuse
+	c.rejectReasonsRule(p, "C02.guard", reasonSpec{pkg: "sign/eddilithium2", name: "Verify", why: "both components verify",
+		callees: []string{"sign/dilithium/mode2.Verify", "sign/ed25519.Verify"}})
+	c.rejectReasonsRule(p, "C02.guard", reasonSpec{pkg: "sign/eddilithium3", name: "Verify", why: "both components verify",
+		callees: []string{"sign/dilithium/mode3.Verify", "sign/ed448.Verify"}})
 	c.guard(p, "C02.guard", "Dilithium2 component must verify", p.Func("sign/eddilithium2", "", "Verify"), GuardSpec{Assumes: []Assume{calleeAssume(latFalse, -1, "sign/dilithium/mode2.Verify")}})
 	c.guard(p, "C02.guard", "Ed25519 component must verify", p.Func("sign/eddilithium2", "", "Verify"), GuardSpec{Assumes: []Assume{calleeAssume(latFalse, -1, "sign/ed25519.Verify")}})
 	c.guard(p, "C02.guard", "Dilithium3 component must verify", p.Func("sign/eddilithium3", "", "Verify"), GuardSpec{Assumes: []Assume{calleeAssume(latFalse, -1, "sign/dilithium/mode3.Verify")}})
